@@ -17,6 +17,11 @@ func verifHarness_K1_Clone() {
 	cfg := verifCfgEdit()
 	cfg.inMsg = verifChoice("inmsg", 2) == 1
 	pj, root := verifGenDoc(cfg, T)
+	if cfg.inMsg && verifChoice("sbextra", 2) == 1 {
+		// no-copy mode with a non-empty string buffer (an escaped string elsewhere in the document, or an earlier SetString
+		// since replaced): the strings of this tape still live in Message
+		pj.Strings.B = append(pj.Strings.B, nondetU8("sb.extra"))
+	}
 	// spare capacity behind the string buffer, as a parser leaves it
 	sb := make([]byte, len(pj.Strings.B), len(pj.Strings.B)+4)
 	copy(sb, pj.Strings.B)
